@@ -12,12 +12,12 @@ import (
 func init() { props["C12"] = runC12 }
 
 func runC12(r *Run, rng *rand.Rand, thorough bool) {
-	r.Rule = "cross-verification with substitutions: every accepted proof (Go- and model-made) is re-judged by both verifiers under another session, another statement component and every single-component perturbation (+1, -1, random, zero, neighbour swap; all indices of the repeated parts in the thorough tier) and commitment/response shift attacks along every checked relation (each commitment moved along each of its bases with the matching responses), additive inverses modulo every modulus of the statement; non-trivial = distinct verify op; direct assertion: the Go verifier accepts none of them"
+	r.Rule = "cross-verification with substitutions: every accepted proof (Go- and model-made) is re-judged by both verifiers under another session, another statement component and every single-component perturbation (+1, -1, random, zero, neighbour swap; in the thorough tier all indices of parts up to 40 elements and the first four, the last four and every eighth index of the 80- and 128-fold parts) and commitment/response shift attacks along every checked relation (each commitment moved along each of its bases with the matching responses), additive inverses modulo every modulus of the statement; non-trivial = distinct verify op; direct assertion: the Go verifier accepts none of them"
 	cases := honestCases(r, rng, thorough)
 	perSys := map[string]int{}
 	for _, c := range cases {
 		perSys[c.sys]++
-		if !thorough && perSys[c.sys] > 2 {
+		if !thorough && perSys[c.sys] > 2 || thorough && perSys[c.sys] > 6 {
 			continue
 		}
 		g, _, _ := r.Do(c.sys+"/honest", true, c.op, c.args...)
